@@ -18,9 +18,9 @@ from vlib import monitors as M
 ID = "C08"
 LEVEL = "exploration"
 TECHNIQUE = "fresh-rebuild differential over edit histories; conservation + unique-value-per-key oracle under a controlled line-level scheduler"
-RULE = ("A: alphabet of 14 operations (3 converter equations, 2 flow equations, 2 stock equations, initial value number/number/constant, "
+RULE = ("A: alphabet of 16 operations (three evaluation routes: evaluate_equation, Element.plot, memoize/element call) (3 converter equations, 2 flow equations, 2 stock equations, initial value number/number/constant, "
         "2 constant values, reset_cache, partial evaluation) - ALL sequences of length<=3 (quick) / <=4 (thorough) + random length 5-30, "
-        "each in two observation modes (compare after every op / only at the end), plus scenario double-runs with different equation lists. "
+        "each in three observation modes (compare after every op through evaluate_equation / through the memo route, or only at the end), plus scenario double-runs with different equation lists. "
         "B: 4 requested-equation lists x all schedules with <=1 preemption (quick) / <=2 (thorough) at LINE granularity inside Model.memoize, "
         "plus unscheduled stress runs. distinct_nontrivial = distinct edit histories in which an edited element has a cached dependant, "
         "plus distinct schedules in which two threads missed the same memo key.")
@@ -29,7 +29,7 @@ ASSUMPTIONS = ["preemption only at line boundaries of Model.memoize; <=3 worker 
 REQUIRED = {"histories": 500, "grid_comparisons": 5000, "schedules": 100, "schedules_with_double_miss": 5, "scenario_reruns": 20}
 BUDGET_S = {"quick": 100, "thorough": 1500}
 
-OPS = ["v0", "v1", "v2", "f0", "f1", "s0", "s1", "i5", "i100", "ic", "c2", "c7", "reset", "peek"]
+OPS = ["v0", "v1", "v2", "f0", "f1", "s0", "s1", "i5", "i100", "ic", "c2", "c7", "reset", "peek", "peek_plot", "peek_memo"]
 GRID = [0.0, 1.0, 2.0, 3.0, 4.0]
 EQ_LISTS = [["s", "f", "rnd"], ["rnd", "f", "s"], ["f", "copy", "rnd"], ["s", "copy"]]
 
@@ -93,7 +93,9 @@ def apply_defs(m, defs, all_=False, only=None):
         s.initial_value = defs["init"][1] if defs["init"][0] == "num" else c2
 
 
-def snapshot(m):
+def snapshot(m, route=0):
+    if route == 1:   # the route Element.plot uses
+        return {n: [float(m.memoize(n, t)) for t in GRID] for n in ("c", "v", "f", "s", "y")}
     return {n: [float(m.evaluate_equation(n, t)) for t in GRID] for n in ("c", "v", "f", "s", "y")}
 
 
@@ -118,12 +120,16 @@ def run_history(seq, every, counters):
             defs["c"] = 2.0 if name == "c2" else 7.0; apply_defs(m, defs, only="c"); edited = True
         elif name == "reset":
             m.reset_cache(); edited = False; cached = False
+        elif name == "peek_plot":  # evaluation through the plotting route
+            m.converters["y"].plot(return_df=True); edited = False; cached = True
+        elif name == "peek_memo":  # evaluation through the memo lookup / element call
+            m.memoize("y", 2.0); m.flows["f"](3.0); m.equation("v", 1.0); edited = False; cached = True
         else:  # peek: partial evaluation fills part of the memo
             m.evaluate_equation("y", 3.0); m.evaluate_equation("f", 1.0); edited = False; cached = True
         if edited and cached:
             interesting = True
         if every or pos == len(seq) - 1:
-            got = snapshot(m)
+            got = snapshot(m, route=1 if every == 2 else 0)
             exp = snapshot(build(defs))
             counters["grid_comparisons"] = counters.get("grid_comparisons", 0) + 25
             cached = True
@@ -282,7 +288,7 @@ def run_case(case):
             [[case["first"]] + list(t) for L in range(case["L"]) for t in itertools.product(range(len(OPS)), repeat=L)]
         nts = []
         for seq in seqs:
-            for every in (True, False):
+            for every in (True, False, 2):
                 counters["histories"] = counters.get("histories", 0) + 1
                 w, interesting = run_history(seq, every, counters)
                 if interesting:
